@@ -26,7 +26,7 @@ import vlib
 LEVEL = "proof"
 PROP_FILE = "Props/Properties_C13.v"
 WRAPS = ("pthread_mutex_lock", "pthread_mutex_unlock", "pthread_cond_wait", "pthread_cond_signal",
-         "pthread_create", "pthread_join", "select", "read", "write", "pthread_mutex_init", "pthread_mutex_destroy")
+         "pthread_create", "pthread_join", "pthread_detach", "select", "read", "write", "pthread_mutex_init", "pthread_mutex_destroy")
 ASAN_ENV = {"ASAN_OPTIONS": "detect_leaks=0:abort_on_error=0:allocator_may_return_null=1"}
 TSAN_ENV = {"TSAN_OPTIONS": "halt_on_error=0 exitcode=0 report_signal_unsafe=0 detect_deadlocks=1 second_deadlock_stack=1"}
 
@@ -202,7 +202,7 @@ def _misuse(d):
     if hr:
         what.append("%d mutex(es) were still held by the application thread when the API call returned" % hr)
     if bu:
-        what.append("%d UNLOCK(s) of a mutex the calling thread did not hold" % bu)
+        what.append("%d UNLOCK(s) of a mutex the calling thread did not hold / pthread_join calls of the library that failed" % bu)
     return [("mutex_misuse", "mutex misuse seen by the wrap layer: " + "; ".join(what) + " [kind:class+client:where = %s]" % txt,
              {"defect": "mutex_misuse", "site": site}, "")]
 
@@ -247,11 +247,13 @@ def judge_stress(c, r, model):
         obs.append(("hang", "%s disconnected client(s) were not torn down within 10 s: clientInput is blocked joining a clientOutput thread "
                     "that went to sleep after the last wake-up (clientGoneHook only ran at shutdown)" % d.get("stuck_after_cycles"),
                     {"defect": "hang", "phase": "disconnect"}, ""))
-    elif z != model["zombies"].get(n, -1):
-        obs.append(("corr:zombies", "never-joined threads after %d cycles: model %s, implementation %d" % (n, model["zombies"].get(n), z),
-                    {"kind": "correspondence"}, ""))
+    elif z != model["zombies"].get(n, -1) and z != model["zombies_fix6"].get(n, -1):
+        # two protocols are modelled: HEAD's (th_step false: n never-reclaimed threads = finding C13-F13, reported below) and the
+        # one of notes/fix_C13_6.diff (th_step true: none); anything in between is neither
+        obs.append(("corr:zombies", "never-reclaimed threads after %d cycles: model %s (HEAD's protocol) or %s (self-detach), implementation %d" %
+                    (n, model["zombies"].get(n), model["zombies_fix6"].get(n), z), {"kind": "correspondence"}, ""))
     if z != 0:
-        obs.append(("threads_not_reclaimed", "%d client threads that have ended were never joined after %d connect/disconnect cycles "
+        obs.append(("threads_not_reclaimed", "%d client threads that have ended were never joined nor detached after %d connect/disconnect cycles "
                     "(resources grow with the number of past connections)" % (z, n), {"defect": "threads_not_reclaimed"}, ""))
     obs += _pairs_obs(d, model) + _misuse(d)
     return obs, info
@@ -468,7 +470,7 @@ def check(ctx):
     cases, forced, phases, policy, frag = gen_cases(ctx)
     ncyc = list(range(0, 10))
     rc, mout, merr = vlib.run_driver(mexe, "case 0 model\ntable\nwitness\n" + "".join("cycles %d\n" % n for n in ncyc))
-    model = {"table": set(), "palette": set(), "zombies": {}, "witness": []}
+    model = {"table": set(), "palette": set(), "zombies": {}, "zombies_fix6": {}, "witness": []}
     for l in mout.split("\n"):
         p = l.split()
         if not p:
@@ -479,6 +481,7 @@ def check(ctx):
             model["palette"] = set(p[1:])
         elif p[0] == "cycles":
             model["zombies"][int(p[1])] = int(p[2].split("=")[1])
+            model["zombies_fix6"][int(p[1])] = int(p[4].split("=")[1])
         elif p[0] == "witness":
             model["witness"].append(l)
 
